@@ -99,8 +99,10 @@ def run(ctx: Context) -> None:
     if len(subs) == 1 and ok_split:
         pat, rep = const_value(subs[0].args[0], None), const_value(subs[0].args[1], None)
         subject = flow.resolve(subs[0].args[2])
-        while isinstance(subject, ast.Call) and isinstance(subject.func, ast.Attribute) and subject.func.attr == 'strip' and not subject.args:
+        stripped = False
+        while isinstance(subject, ast.Call) and isinstance(subject.func, ast.Attribute) and subject.func.attr in ('strip', 'rstrip') and not subject.args:
             subject = flow.resolve(subject.func.value)
+            stripped = True
         from_split = flow.reaches(subs[0].args[2], lambda m: m is split[0], depth=6)
         if isinstance(pat, str) and isinstance(rep, str) and from_split:
             # constant folding of the substitution over the spellings of a UTC offset
@@ -114,6 +116,9 @@ def run(ctx: Context) -> None:
             try:
                 got = {k: _re.sub(pat, rep, k) for k in list(want) + same}
                 bad = [k for k in want if got[k] != want[k]] + [k for k in same if got[k] != k]
+                if not stripped:
+                    # the date part of a blank padded attribute ends in blanks: a substitution that sees them has to cope with them
+                    bad += [f"{k!r} followed by blanks" for k in want if _re.sub(pat, rep, k + '  ').strip() != want[k]]
                 pad_ok, pad_why = not bad, (f"folded over {len(got)} spellings: all as required" if not bad else f"wrong for {bad[:3]}")
             except _re.error as exc:
                 pad_why = f"pattern does not compile: {exc}"
